@@ -124,7 +124,18 @@ def read_accessors(info):
     return fails
 
 
-def components(info):
+def components(info, rec=None):
+    """Component readings; a component that cannot be read is recorded as an accessor failure (not a harness crash)."""
+    oc, val, exc = guarded(lambda: _components(info))
+    if oc == 'value':
+        return val
+    if rec is not None:
+        rec['acc'] = 'hang' if oc == 'hang' else 'raise'
+        rec['accfail'] = rec.get('accfail', []) + [['components', exc]]
+    return {'sch': [], 'hn': [], 'port': 0, 'path': [], 'query': [], 'frag': [], 'user': [], 'pass': []}
+
+
+def _components(info):
     return {'sch': cps(info.scheme or ''), 'hn': cps(info.hostname or ''), 'port': int(info.port or 0),
             'path': cps(info.path or ''), 'query': cps(info.query or ''), 'frag': cps(info.fragment or ''),
             'user': cps(info.username or ''), 'pass': cps(info.password or '')}
@@ -172,14 +183,14 @@ def _run_case(rec, text, enc, joins, full):
             rec['net'] = info.scheme in wpull.url.RELATIVE_SCHEME_DEFAULT_PORTS
             rec['url'] = cps(url)
             if rec['net']:
-                rec.update(components(info))
+                rec.update(components(info, rec))
                 oc2, info2, _ = guarded(lambda: URLInfo.parse(url, encoding=enc))
                 if oc2 == 'value':
                     oc2, url2, _ = guarded(lambda: info2.url)
                 rec['oc2'] = oc2
                 if oc2 == 'value':
                     rec['url2'] = cps(url2)
-                    c2 = components(info2)
+                    c2 = components(info2, rec)
                     for k in ('sch', 'hn', 'port', 'path', 'query'):
                         rec[k + '2'] = c2[k]
     if not full:
@@ -204,7 +215,56 @@ def _run_case(rec, text, enc, joins, full):
                 if joc in ('other', 'hang'):
                     worst = joc if worst != 'hang' else worst
                     rec['joinfail'].append([fn_name, base, jexc])
+        # ... also where the join really happens: the HTML scraper, with the text as a link, as the document base
+        # and as the base of one element (codebase), next to ordinary and scheme-relative links
+        if worst in ('ok', 'valueerror'):
+            soc, sexc = scrape_join(text)
+            if soc in ('other', 'hang'):
+                worst = soc
+                rec['joinfail'].append(['HTMLScraper.scrape', 'document', sexc])
         rec['join'] = worst
+
+
+_SCRAPER = []
+DOCS = ('<html><head><base href="%s"></head><body><a href="x">1</a><a href="//h2.test/y">2</a><img src="?q"></body></html>',
+        '<html><body><a href="%s">1</a><img src="%s"><link rel="stylesheet" href="%s"><form action="%s"></form></body></html>',
+        '<html><body><object codebase="%s" data="x" archive="//h2.test/y z"></object>'
+        '<applet codebase="%s" code="//h2.test/c" archive="a.jar"></applet></body></html>',
+        '<html><head><meta http-equiv="refresh" content="0; url=%s"></head><body style="background: url(%s)"></body></html>')
+
+
+def scrape_join(text):
+    """The text placed in every URL-bearing role of small HTML documents, scraped by the real HTMLScraper.
+    Returns (outcome class, exception name); texts that cannot be written into a UTF-8 document are skipped."""
+    import html
+    import io
+    try:
+        text.encode('utf-8')
+    except UnicodeError:
+        return 'value', ''
+    if not _SCRAPER:
+        from wpull.document.htmlparse.html5lib_ import HTMLParser
+        from wpull.scraper.html import HTMLScraper, ElementWalker
+        from wpull.scraper.css import CSSScraper
+        from wpull.scraper.javascript import JavaScriptScraper
+        _SCRAPER.append(HTMLScraper(HTMLParser(), ElementWalker(css_scraper=CSSScraper(), javascript_scraper=JavaScriptScraper())))
+    from wpull.protocol.http.request import Request, Response
+    from wpull.body import Body
+    esc = html.escape(text, quote=True)
+    for d in DOCS:
+        body = (d.replace('%s', esc)).encode('utf-8')
+
+        def go():
+            req = Request('http://h.test/dir/doc.html')
+            resp = Response(200, 'OK')
+            resp.fields['Content-Type'] = 'text/html; charset=utf-8'
+            resp.body = Body(io.BytesIO(body))
+            resp.request = req
+            return _SCRAPER[0].scrape(req, resp)
+        oc, _, exc = guarded(go)
+        if oc in ('other', 'hang'):
+            return oc, exc
+    return 'value', ''
 
 
 def ref_of(rec):
